@@ -50,7 +50,7 @@ func (c14) Rule() string {
 
 func (c14) Generate(r *rand.Rand, tier string) (sim.Config, any) {
 	cfg := RandomSimConfig(r)
-	cfg.StmtYield = pick(r, []float64{0, 0, 0.02, 0.1}) // statement-level preemption in the handler / cluster packages
+	cfg.StmtYield = pick(r, []float64{0, 0.02, 0.1, 0.5, 0.9}) // statement-level preemption in the handler / cluster packages (dense in some runs: the window between reading the node database and sending is a few statements)
 	cfg.IdleLimitSec = 7200
 	nOld := 1 + r.IntN(3)
 	old := r.Perm(4)[:nOld]
